@@ -73,7 +73,24 @@ def run(ctx, chk):
     f = Fn(crate, "end_of_day")
     cp = f.calls(lambda n, t: n == FEIG + "cancel_pending")
     st = [(bb, t) for bb, t in f.stream_calls() if f.seq_of(t) == "zvt::sequences::EndOfDay"]
-    if chk.require(len(cp) == 1 and len(st) == 1, "C19/eod-shape", "end_of_day",
+    # the clean-up may live in its own helper (cancel_pending, as on the pinned tree) or be written out in end_of_day
+    has_cp = (FEIG + "cancel_pending::{closure#0}") in crate.bodies
+    if not has_cp:
+        gp_e = f.calls(lambda n, t: n == FEIG + "get_pending")
+        cr_e = f.calls(lambda n, t: n == FEIG + "cancel_transaction_by_receipt_no")
+        if chk.require(len(gp_e) == 1 and len(cr_e) == 1 and len(st) == 1, "C19/eod-shape", "end_of_day",
+                       "expected the pending query, one reversal call and one EndOfDay exchange, found %d/%d/%d" % (len(gp_e), len(cr_e), len(st)),
+                       "", f.sp()):
+            chk.require(f.b.dominates(gp_e[0][0], st[0][0]) and cr_e[0][0] not in f.reach_from(st[0][0]), "C19/cleanup-first", "end_of_day",
+                        "End-of-Day is requested before dangling pre-authorisations were reversed", "clean-up before EndOfDay", f.sp(st[0][0]))
+            prop = [x for bb, x in f.ret_writes() if f.classify_ret(x) in ("propagate", "err") and
+                    any(y[0] == "call" and y[1] in (FEIG + "get_pending", FEIG + "cancel_transaction_by_receipt_no") for y in walk(x))]
+            chk.require(len(prop) >= 2, "C19/cleanup-failure-reported", "end_of_day",
+                        "a failing clean-up is ignored and End-of-Day still runs", "`?` on the query and on the reversal", f.sp(gp_e[0][0]))
+            req = f.ex.operand(st[0][1]["args"][0])
+            chk.require(any(x[0] == "agg" and x[1] == "zvt::packets::EndOfDay::EndOfDay" for x in walk(req)), "C19/eod-request",
+                        "end_of_day", "request is not packets::EndOfDay", "", f.sp(st[0][0]), nontrivial=False)
+    elif chk.require(len(cp) == 1 and len(st) == 1, "C19/eod-shape", "end_of_day",
                    "expected one cancel_pending call and one EndOfDay exchange, found %d/%d" % (len(cp), len(st)), "", f.sp()):
         chk.require(f.b.dominates(cp[0][0], st[0][0]) and cp[0][0] != st[0][0], "C19/cleanup-first", "end_of_day",
                     "End-of-Day is requested before dangling pre-authorisations were reversed", "cancel_pending dominates EndOfDay",
@@ -87,7 +104,7 @@ def run(ctx, chk):
         chk.require(any(x[0] == "agg" and x[1] == "zvt::packets::EndOfDay::EndOfDay" for x in walk(req)), "C19/eod-request",
                     "end_of_day", "request is not packets::EndOfDay", "", f.sp(st[0][0]), nontrivial=False)
     # ---- cancel_pending
-    f = Fn(crate, "cancel_pending")
+    f = Fn(crate, "cancel_pending" if has_cp else "end_of_day")
     gp = f.calls(lambda n, t: n == FEIG + "get_pending")
     cr = f.calls(lambda n, t: n == FEIG + "cancel_transaction_by_receipt_no")
     if chk.require(len(gp) == 1 and len(cr) == 1, "C19/pending-shape", "cancel_pending",
